@@ -215,9 +215,10 @@ class Program:
         return raised, msgs
 
     def do_check_mb(self):
-        tolmode = "explicit" if (self.has_nan or self.rnd.random() < 0.6) else "default"
+        tolmode = "explicit" if (self.has_nan or self.rnd.random() < 0.6) else self.rnd.choice(["default", "zero"])
         raise_error = self.rnd.random() < 0.5
-        raised, msgs = self.logged(lambda: self.mfa.check_mass_balance(tolerance=TOL if tolmode == "explicit" else None, raise_error=raise_error))
+        tol_arg = TOL if tolmode == "explicit" else (None if tolmode == "default" else self.rnd.choice([0, 0.0]))
+        raised, msgs = self.logged(lambda: self.mfa.check_mass_balance(tolerance=tol_arg, raise_error=raise_error))
         text = raised if raised is not None else " ".join(msgs)
         failing = re.findall(r"(sysenv|P\d+) \(max error", text or "")
         outcome = "fail" if (raised is not None or msgs) else "ok"
